@@ -148,6 +148,11 @@ impl MemRegionBitmap for AtomicBitmapMmap {
         if region_len == 0 {
             return Err(io::Error::from(io::ErrorKind::InvalidData));
         }
+        // The log works on whole pages: a region that does not start and end on a page boundary
+        // would have its first or last partial page logged under the wrong bit or not at all.
+        if region_start_addr % LOG_PAGE_SIZE != 0 || region_len % LOG_PAGE_SIZE != 0 {
+            return Err(io::Error::from(io::ErrorKind::InvalidData));
+        }
 
         // The size of the log should be large enough to cover all known guest addresses.
         let region_end_addr = region_start_addr
